@@ -66,6 +66,8 @@ def nl_lemmas(cache):
             out.append(z3.Implies(z3.Or(z3.And(a > zero, b > zero), z3.And(a < zero, b < zero)), e > zero))
             out.append(z3.Implies(z3.Or(z3.And(a > zero, b < zero), z3.And(a < zero, b > zero)), e < zero))
             out.append(z3.Implies(a == one, e == b)); out.append(z3.Implies(b == one, e == a))
+            out.append(z3.Implies(z3.Or(z3.And(a >= zero, b >= zero), z3.And(a <= zero, b <= zero)), e >= zero))
+            out.append(z3.Implies(z3.Or(z3.And(a >= zero, b <= zero), z3.And(a <= zero, b >= zero)), e <= zero))
             if b.decl().eq(_fdiv) and z3.is_rational_value(b.children()[0]) and b.children()[0].numerator_as_long() == b.children()[0].denominator_as_long():
                 dd = b.children()[1]
                 out.append(z3.Implies(z3.And(a == dd, dd != zero), e == one))
@@ -79,6 +81,11 @@ def nl_lemmas(cache):
             out.append(z3.Implies(z3.Or(z3.And(a > zero, b > zero), z3.And(a < zero, b < zero)), e > zero))
             out.append(z3.Implies(z3.Or(z3.And(a > zero, b < zero), z3.And(a < zero, b > zero)), e < zero))
             out.append(z3.Implies(b == one, e == a))
+            out.append(z3.Implies(z3.Or(z3.And(a >= zero, b > zero), z3.And(a <= zero, b < zero)), e >= zero))
+            out.append(z3.Implies(z3.Or(z3.And(a >= zero, b < zero), z3.And(a <= zero, b > zero)), e <= zero))
+            out.append(z3.Implies(z3.And(b > zero, a <= b), e <= one)); out.append(z3.Implies(z3.And(b > zero, a >= -b), e >= -one))
+            out.append(z3.Implies(z3.And(b < zero, a >= b), e <= one)); out.append(z3.Implies(z3.And(b < zero, a <= -b), e >= -one))
+            out.append(z3.Implies(z3.And(b > zero, a >= b), e >= one)); out.append(z3.Implies(z3.And(b < zero, a <= b), e >= one))
     for v in list(cache.values()): visit(v)
     return out
 
